@@ -11,10 +11,19 @@ socket writes in emission order, the results of attempt / send tasks, `CannotCon
 server; and globally: `Network.peer_connections`, every connection's `state`, every socket's openness.
 The same op list goes through the Lean driver (`Driver/C10.lean`, executing `Model/Conn.lean`).
 
-case = {'kind': str, 'server': bool, 'ops': [op...]}
-  op = ['new', origin, typF, slow, obf] | ['at', i, name, arg?]
+case = {'kind': str, 'server': bool, 'ops': [op...], 'cfg'?: {'obfuscate': 0|1, 'mode': 'fallback'|'race',
+                                                             'monitor_only': bool}}
+  op = ['new', origin, typF, slow, obf] | ['at', i, name, arg?] | ['net', 'disconnect', new?...]
+    origin: direct | back | incoming | server | api (public `create_peer_connection`; monitor only)
+    obf: 0 regular port, 1 obfuscated port, 2 both ports advertised (back: in the ConnectToPeer message; direct / api:
+         the address is looked up with GetPeerAddress), 3 / 4 (direct / api): looked up, regular / obfuscated port only
+    ['at', i, 'burst', [[name, arg?], ...]]: several calls / events in ONE loop iteration (no quiescent point between)
 An op that is not enabled on the implementation (nothing parked there) is skipped and not sent to the
 model; grid scenarios are written so that nothing is skipped.
+
+The monitor judges per connection OBJECT: every object that ever reported a state (or sits in the registry) has its own
+track, also objects the scenario did not ask for; which sockets / connect attempts belong to an object is recorded by
+the fake net (`GatedNet.attempt_log`), not read from the object.
 """
 from __future__ import annotations
 
@@ -76,12 +85,14 @@ class _Hang(BaseException):
 class _Slot:
     def __init__(self, idx, origin, typF, slow, obf):
         self.idx, self.origin, self.typF, self.slow, self.obf = idx, origin, typF, slow, obf
-        self.key = None
+        self.key = None              # the address the unchanged code dials (select_port)
+        self.keys: list = []         # every address advertised for this peer
         self.task: Optional[asyncio.Task] = None
         self.task_reported = False
         self.conn = None
         self.cfg = None              # how the init write behaves ('ok'|'block'|'fail')
         self.sends: list = []        # [task, reported]
+        self.queued: list = []       # [queue_message task, reported]
         self.ticket = 100 + idx
         self.remote_closed = False   # the remote end closed/reset the socket while the library was reading/draining
 
@@ -94,8 +105,13 @@ def _run_impl(case: dict) -> dict:
     from aioslsk.exceptions import ConnectionWriteError
     from aioslsk.protocol import obfuscation
     from aioslsk.protocol.messages import (PeerInit, PeerPierceFirewall, PeerSharesRequest, ConnectToPeer,
-                                           CannotConnect, GetUserStatus, Ping)
+                                           CannotConnect, GetUserStatus, Ping, GetPeerAddress)
     from vlib.simserver import SimServer
+    from vlib.connharness import _frames_of, pending_timers
+
+    cfg = case.get('cfg') or {}
+    prefer_obfs = bool(cfg.get('obfuscate'))
+    settings_of = lambda: make_settings(cfg.get('mode', 'fallback'), obfuscate=prefer_obfs)  # noqa: E731
 
     hang = {'hit': 0}
 
@@ -122,21 +138,42 @@ def _run_impl(case: dict) -> dict:
             full: list = []           # same, never truncated, with op number (for the monitor)
             opno = [0]
 
+            objs: dict = {}           # id(connection object) -> [object (strong ref), label, origin]
+            extra_n = [0]
+
             def idx_of(conn):
+                """label of a connection OBJECT: the slot index for the (first) object of a scenario connection, its own
+                label for any other object (a second object for the same peer address: '<idx>~n'; unknown address: '?n:..')"""
                 if isinstance(conn, ServerConnection):
                     for s in slots:
                         if s.origin == 'server':
                             s.conn = conn
+                            objs.setdefault(id(conn), [conn, s.idx, 'server'])
                             return s.idx
                     return 'S'
                 if isinstance(conn, ListeningConnection):
                     return 'L'
-                s = by_key.get((conn.hostname, conn.port))
+                ent = objs.get(id(conn))
+                if ent is not None:
+                    return ent[1]
+                key = (conn.hostname, conn.port)
+                s = by_key.get(key)
                 if s is None:
-                    return f'?{conn.hostname}:{conn.port}'
-                if s.conn is None:
+                    extra_n[0] += 1
+                    label, origin = f'?{extra_n[0]}:{conn.hostname}:{conn.port}', 'extra'
+                elif s.conn is None:
                     s.conn = conn
-                return s.idx
+                    label, origin = s.idx, s.origin
+                else:
+                    extra_n[0] += 1
+                    label, origin = f'{s.idx}~{extra_n[0]}', 'extra'
+                objs[id(conn)] = [conn, label, origin]
+                # an accepted socket belongs to the object that reports / is registered with its remote address
+                for a in fn.incoming_log:
+                    if a['owner'] is None and a['key'] == key:
+                        a['owner'] = conn
+                        break
+                return label
 
             def emit(i, tok):
                 log.append((i, tok))
@@ -155,13 +192,21 @@ def _run_impl(case: dict) -> dict:
                     emit(idx_of(ev.connection), 'init:req' if ev.requested else 'init:unreq')
 
             server = SimServer()
+            lookup: dict = {}         # username -> (ip, regular port, obfuscated port) answered to GetPeerAddress
+
+            def on_request(srv, writer, msg):
+                if isinstance(msg, GetPeerAddress.Request) and msg.username in lookup:
+                    ip, port, oport = lookup[msg.username]
+                    writer.write(GetPeerAddress.Response(msg.username, ip, port, obfuscated_port_amount=1 if oport else 0,
+                                                         obfuscated_port=oport).serialize())
+            server.on_request = on_request
             if case.get('server'):
                 bus = EventBus()
-                net = Network(make_settings(), bus)
+                net = Network(settings_of(), bus)
                 await net.connect_listening_ports()
                 srv_tasks = []
             else:
-                bus, net, server, srv_task = await start_network(loop, fn, make_settings())
+                bus, net, server, srv_task = await start_network(loop, fn, settings_of(), server=server)
                 srv_tasks = [srv_task]
             obs = Obs(bus, idx_of)
             seen_cc = [0]
@@ -177,7 +222,25 @@ def _run_impl(case: dict) -> dict:
                 return setup
 
             def libw(slot):
-                return fn.lib_writers.get(slot.key)
+                """library side of the newest socket to one of the slot's addresses"""
+                if len(slot.keys) <= 1:
+                    return fn.lib_writers.get(slot.key)
+                for a, _b in reversed(fn.pairs):
+                    if a.peername in slot.keys:
+                        return a
+                return None
+
+            def parked_key(slot):
+                for k in (slot.keys or [slot.key]):
+                    if fn.connect_parked(k):
+                        return k
+                return None
+
+            def select(clear, oport):
+                """which of the advertised ports is dialled (what `Network.select_port` documents)"""
+                if clear and oport:
+                    return oport if prefer_obfs else clear
+                return clear or oport
 
             def sock_open(slot):
                 w = libw(slot)
@@ -189,14 +252,82 @@ def _run_impl(case: dict) -> dict:
             def user_send_parked(slot):
                 return any(not t.done() for t, _ in slot.sends)
 
+            def queue_parked(slot):
+                return any(not t.done() for t, _ in slot.queued)
+
+            def user_tasks(slot):
+                return [t for t, _ in slot.sends] + [t for t, _ in slot.queued]
+
+            def attempt_send_timer(slot):
+                """the send timer of the task that sets the connection up (not of a send / queue_message call)"""
+                mine = user_tasks(slot)
+                for tm, t, names, selfs in pending_timers(loop):
+                    if t in mine or t.done():
+                        continue
+                    if slot.origin != 'api' and t is not slot.task:
+                        continue
+                    inner = None
+                    for n, sf in zip(names, selfs):
+                        if sf is slot.conn and n in ('connect', '_read', '_send', 'disconnect'):
+                            inner = n
+                    if inner == '_send':
+                        return tm
+                return None
+
+            def indirect_task(slot):
+                for t in asyncio.all_tasks(loop):
+                    if t.done() or not (t is slot.task or t.get_name().startswith('indirect-connect-')):
+                        continue
+                    names = [n for n, _ in _frames_of(t)]
+                    if '_make_indirect_connection' in names and 'send_message' not in names:
+                        return t
+                return None
+
+            def wait_timer(t):
+                """the timer of the `asyncio.wait(..., timeout=)` task `t` is parked in"""
+                for h in list(loop._scheduled):
+                    if h._cancelled:
+                        continue
+                    if (getattr(h._callback, '__name__', '') == '_release_waiter' and h._args
+                            and h._args[0] is getattr(t, '_fut_waiter', None)):
+                        return h
+                return None
+
+            def ctp_ticket(slot):
+                """ticket of the ConnectToPeer request the library sent to the server for this slot's user"""
+                rs = [r for r in server.received if isinstance(r, ConnectToPeer.Request) and r.username == f'user{slot.idx}']
+                return rs[-1].ticket if rs else None
+
+            SUB_API = ('queue', 'send', 'disconnect')
+            SUB_ENV = ('eof', 'reset', 'frame', 'partialEof')
+
             def enc(slot, data: bytes) -> bytes:
                 return obfuscation.encode(data) if (slot.conn is not None and slot.conn.obfuscated) else data
 
             def enabled(slot, name, arg) -> bool:
                 c = slot.conn
-                parked_open = fn.connect_parked(slot.key) and slot.task is not None and not slot.task.done()
-                if name in ('connectOk', 'connectFail', 'connectTimeout'):
+                parked_open = parked_key(slot) is not None and slot.task is not None and not slot.task.done()
+                if name in ('connectOk', 'connectFail'):
                     return parked_open
+                if name == 'connectTimeout':
+                    return parked_open and c is not None and find_timer(
+                        loop, c, 'connect', None if slot.origin == 'api' else slot.task) is not None
+                if name == 'burst':
+                    subs = arg
+                    if not subs or c is None:
+                        return False
+                    for sub in subs:
+                        if sub[0] not in SUB_API + SUB_ENV:
+                            raise ValueError(sub)
+                        if not enabled(slot, sub[0], sub[1] if len(sub) > 1 else None):
+                            return False
+                    return True
+                if name == 'cannotConnect':
+                    w_ = fn.lib_writers.get(SERVER_ADDR)
+                    return slot.origin == 'api' and ctp_ticket(slot) is not None and w_ is not None and not w_._closed
+                if name == 'indirectTimeout':
+                    t_ = indirect_task(slot) if slot.origin == 'api' else None
+                    return t_ is not None and wait_timer(t_) is not None
                 if name == 'cancelAttempt':
                     return slot.origin != 'incoming' and slot.task is not None and not slot.task.done()
                 at = accept_task(slot)
@@ -211,9 +342,24 @@ def _run_impl(case: dict) -> dict:
                     return reader or awaiting
                 w = libw(slot)
                 if name == 'reset':
-                    return sock_open(slot) and (reader or awaiting or (w is not None and w.drain_parked()))
+                    if not sock_open(slot):
+                        return False
+                    if reader or awaiting:
+                        return True
+                    if w is None or not w.drain_parked():
+                        return False
+                    # a direct send and a queued send both parked, nobody else: which one wakes first is not modelled
+                    return not (user_send_parked(slot) and queue_parked(slot) and attempt_send_timer(slot) is None)
                 if name == 'disconnect':
                     return c is not None and (arg != 'frame' or reader)
+                if name == 'queue':
+                    if c is None or c.state == ConnectionState.UNINITIALIZED:
+                        return False
+                    if arg == 'block' and queue_parked(slot):
+                        return False
+                    return True
+                if name == 'queueTimeout':
+                    return any(not t.done() and find_timer(loop, c, 'send', t) is not None for t, _ in slot.queued)
                 if name == 'closeDone':
                     return w is not None and w.close_parked()
                 if name == 'send':
@@ -226,6 +372,8 @@ def _run_impl(case: dict) -> dict:
                     return w is not None and w.drain_parked()
                 if name == 'sendTimeout':
                     if arg:
+                        if slot.origin == 'api':
+                            return c is not None and attempt_send_timer(slot) is not None
                         return (slot.task is not None and not slot.task.done()
                                 and find_timer(loop, c, 'send', slot.task) is not None)
                     return any(not t.done() and find_timer(loop, c, 'send', t) is not None for t, _ in slot.sends)
@@ -238,28 +386,50 @@ def _run_impl(case: dict) -> dict:
                 slot = _Slot(len(slots), origin, typF, slow, obf)
                 slots.append(slot)
                 typ = 'F' if typF else 'P'
-                if origin == 'direct':
-                    slot.key = (f'10.0.{slot.idx}.1', 2000 + slot.idx)
-                    by_key[slot.key] = slot
-                    fn.writer_setup[slot.key] = setup_for(slot)
-                    slot.task = asyncio.ensure_future(net._make_direct_connection(
-                        slot.ticket, f'user{slot.idx}', typ, slot.key[0], slot.key[1], bool(obf)))
+                host, user = f'10.0.{slot.idx}.1', f'user{slot.idx}'
+
+                def addresses(clear, oport):
+                    """register the advertised addresses of this peer; returns the one the unchanged code dials"""
+                    slot.keys = [(host, p_) for p_ in (clear, oport) if p_]
+                    for k in slot.keys:
+                        by_key[k] = slot
+                        fn.writer_setup[k] = setup_for(slot)
+                    slot.key = (host, select(clear, oport))
+                    return slot.key
+
+                # which ports the peer advertises: obf 0/1 = one port (2000+idx, announced as regular / obfuscated),
+                # 2 = both, 3 = regular only, 4 = obfuscated only (3/4: only for looked-up addresses)
+                if obf == 2:
+                    ports = (2000 + slot.idx, 3000 + slot.idx)
+                elif obf in (1, 4):
+                    ports = (0, 2000 + slot.idx)
+                else:
+                    ports = (2000 + slot.idx, 0)
+                if origin in ('direct', 'api'):
+                    addresses(*ports)
+                    entry = net._make_direct_connection if origin == 'direct' else net.create_peer_connection
+                    args = (slot.ticket, user, typ) if origin == 'direct' else (user, typ)
+                    if obf >= 2:
+                        lookup[user] = (host,) + ports
+                        slot.task = asyncio.ensure_future(entry(*args))
+                    else:
+                        slot.task = asyncio.ensure_future(entry(*args, host, slot.key[1], bool(obf)))
                 elif origin == 'back':
-                    slot.key = (f'10.0.{slot.idx}.1', 2000 + slot.idx)
-                    by_key[slot.key] = slot
-                    fn.writer_setup[slot.key] = setup_for(slot)
+                    addresses(*ports)
                     before = list(net._create_peer_connection_tasks)
                     server.send(ConnectToPeer.Response(
-                        f'user{slot.idx}', typ, slot.key[0], 0 if obf else slot.key[1], slot.ticket, False,
-                        obfuscated_port_amount=1 if obf else 0, obfuscated_port=slot.key[1] if obf else 0))
+                        user, typ, host, ports[0], slot.ticket, False,
+                        obfuscated_port_amount=1 if ports[1] else 0, obfuscated_port=ports[1]))
                     slot._before = before
                 elif origin == 'incoming':
                     slot.key = (f'10.9.{slot.idx}.1', 4000 + slot.idx)
+                    slot.keys = [slot.key]
                     by_key[slot.key] = slot
                     fn.writer_setup[slot.key] = setup_for(slot)
                     fn.incoming(OBFS_PORT if obf else CLEAR_PORT, slot.key)
                 elif origin == 'server':
                     slot.key = SERVER_ADDR
+                    slot.keys = [slot.key]
                     fn.writer_setup[slot.key] = setup_for(slot)
                     slot.conn = net.server_connection
                     slot.task = asyncio.ensure_future(net.connect_server())
@@ -272,12 +442,22 @@ def _run_impl(case: dict) -> dict:
                 w = libw(slot)
                 if name == 'connectOk':
                     slot.cfg = arg
-                    fn.release_connect(slot.key, 'ok')
+                    fn.release_connect(parked_key(slot), 'ok')
                 elif name == 'connectFail':
                     # 'overflow': what open_connection does for a port > 65535 (not an OSError)
-                    fn.release_connect(slot.key, 'overflow' if arg == 'overflow' else 'refuse')
+                    fn.release_connect(parked_key(slot), 'overflow' if arg == 'overflow' else 'refuse')
                 elif name == 'connectTimeout':
-                    assert fire_timer(loop, c, 'connect', slot.task)
+                    assert fire_timer(loop, c, 'connect', None if slot.origin == 'api' else slot.task)
+                elif name == 'burst':
+                    for sub in arg:
+                        do_op(slot, sub[0], sub[1] if len(sub) > 1 else None)
+                elif name == 'cannotConnect':
+                    server.send(CannotConnect.Response(ctp_ticket(slot)))
+                elif name == 'indirectTimeout':
+                    h = wait_timer(indirect_task(slot))
+                    cb, args = h._callback, tuple(h._args)
+                    h.cancel()
+                    loop.call_soon(cb, *args)
                 elif name == 'cancelAttempt':
                     slot.task.cancel()
                 elif name == 'firstFrame':
@@ -292,6 +472,11 @@ def _run_impl(case: dict) -> dict:
                         data = PeerPierceFirewall.Request(tk).serialize()
                     elif arg == 'pierceUnknown':
                         data = PeerPierceFirewall.Request(999999).serialize()
+                    elif arg == 'pierceApi':
+                        # the peer answers the ConnectToPeer request of the newest `create_peer_connection` call
+                        apis = [ctp_ticket(s_) for s_ in slots if s_.origin == 'api']
+                        apis = [t_ for t_ in apis if t_ is not None]
+                        data = PeerPierceFirewall.Request(apis[-1] if apis else 999998).serialize()
                     elif arg == 'undecodable':
                         data = b'\x01\x00\x00\x00\x63'
                     else:
@@ -319,7 +504,9 @@ def _run_impl(case: dict) -> dict:
                 elif name == 'readTimeout':
                     assert fire_timer(loop, c, 'read')
                 elif name == 'disconnect':
-                    slot._keep = getattr(slot, '_keep', []) + [asyncio.ensure_future(c.disconnect(CloseReason.REQUESTED))]
+                    reason = CloseReason[arg] if isinstance(arg, str) and arg in CloseReason.__members__ \
+                        else CloseReason.REQUESTED
+                    slot._keep = getattr(slot, '_keep', []) + [asyncio.ensure_future(c.disconnect(reason))]
                     if arg == 'frame':
                         # a complete frame reaches the socket in the same loop iteration, behind the disconnect call
                         data = (GetUserStatus.Response('x', 1, False).serialize() if slot.origin == 'server'
@@ -338,10 +525,23 @@ def _run_impl(case: dict) -> dict:
                             w.fail_after = len(w.sent)
                     msg = Ping.Request() if slot.origin == 'server' else PeerSharesRequest.Request()
                     slot.sends.append([asyncio.ensure_future(c.send_message(msg)), False])
+                elif name == 'queue':
+                    if w is not None and not w._closed:
+                        if arg == 'block':
+                            w.drain_block = True
+                        elif arg == 'fail':
+                            w.fail_after = len(w.sent)
+                    msg = Ping.Request() if slot.origin == 'server' else PeerSharesRequest.Request()
+                    slot.queued.append([c.queue_message(msg), False])
+                elif name == 'queueTimeout':
+                    t = next(t for t, _ in slot.queued if not t.done() and find_timer(loop, c, 'send', t) is not None)
+                    assert fire_timer(loop, c, 'send', t)
                 elif name == 'drainOk':
                     w.release_drain()
                 elif name == 'sendTimeout':
-                    if arg:
+                    if arg and slot.origin == 'api':
+                        attempt_send_timer(slot).reschedule(loop.time())
+                    elif arg:
                         assert fire_timer(loop, c, 'send', slot.task)
                     else:
                         t = next(t for t, _ in slot.sends if not t.done() and find_timer(loop, c, 'send', t) is not None)
@@ -393,6 +593,18 @@ def _run_impl(case: dict) -> dict:
                             res.append('send:err')
                         else:
                             res.append('send:exc:' + type(t.exception()).__name__)
+                for ent in slot.queued:
+                    t, rep_ = ent
+                    if t.done() and not rep_:
+                        ent[1] = True
+                        if t.cancelled():
+                            res.append('q:cancelled')
+                        elif t.exception() is None:
+                            res.append('q:ret')
+                        elif isinstance(t.exception(), ConnectionWriteError):
+                            res.append('q:err')
+                        else:
+                            res.append('q:exc:' + type(t.exception()).__name__)
                 ccs = [r for r in server.received if isinstance(r, CannotConnect.Request)]
                 for r in ccs[seen_cc[0]:]:
                     res.append('cc' if r.ticket == slot.ticket else f'cc?{r.ticket}')
@@ -421,17 +633,40 @@ def _run_impl(case: dict) -> dict:
                         f"st={','.join(st)} open={','.join(op)}")
                 if stray:
                     line += f' STRAY={stray}'
-                # facts for the monitor, taken from the harness' own view of sockets and tasks
+                # facts for the monitor, taken from the harness' own view of sockets and tasks: one entry per scenario
+                # connection and one per further connection OBJECT that ever reported a state or sits in the registry
                 facts = {'reg': [str(x) for x in reg_s], 'conns': {}}
+
+                def owned(w, conn):
+                    """the socket was opened by `conn` (or by nobody the fake net could name)"""
+                    for a in fn.attempt_log + fn.incoming_log:
+                        if a['writer'] is w:
+                            return a['owner'] is None or a['owner'] is conn
+                    return True
+
+                def obj_view(conn):
+                    ws = fn.writers_of(conn) if conn is not None else []
+                    return (any((not w._closed) or w.close_parked() for w in ws),
+                            bool(conn is not None and fn.opening_by(conn)))
                 for s in slots:
                     w = libw(s)
+                    if w is not None and s.conn is not None and not owned(w, s.conn):
+                        w = None              # the newest socket to this address belongs to another object
+                    o_open, o_opening = obj_view(s.conn)
                     facts['conns'][str(s.idx)] = {
                         'origin': s.origin,
-                        'open': bool(sock_open(s) or (w is not None and w.close_parked())),
+                        'open': bool(o_open or (w is not None and ((not w._closed) or w.close_parked()))),
                         'ended_by_remote': bool(s.remote_closed and not (w is not None and w.close_parked())),
-                        'opening': bool(fn.connect_parked(s.key) and s.task is not None and not s.task.done()),
+                        'opening': bool(o_opening or (s.conn is None and parked_key(s) is not None
+                                                      and s.task is not None and not s.task.done())),
                         'state': s.conn.state.name if s.conn is not None else None,
                     }
+                for conn, label, origin in list(objs.values()):
+                    if str(label) in facts['conns']:
+                        continue
+                    o_open, o_opening = obj_view(conn)
+                    facts['conns'][str(label)] = {'origin': origin, 'open': o_open, 'ended_by_remote': False,
+                                                  'opening': o_opening, 'state': conn.state.name}
                 return line, facts
 
             net_tasks: list = []
@@ -445,6 +680,12 @@ def _run_impl(case: dict) -> dict:
                     return w is not None and not w._closed and rt is not None and not rt.done()
                 if origin == 'server':
                     return not any(s_.origin == 'server' for s_ in slots)
+                if origin == 'api' or obf >= 2:
+                    # needs the server (address look-up / ConnectToPeer request)
+                    w = fn.lib_writers.get(SERVER_ADDR)
+                    rt = net.server_connection._reader_task
+                    return (not case.get('server') and w is not None and not w._closed and rt is not None
+                            and not rt.done())
                 return True
 
             executed, lines, facts_l, skipped = [], [], [], []
@@ -544,19 +785,32 @@ def _model_lines(executed: list) -> list[str]:
         else:
             _, i, name = op[:3]
             arg = op[3] if len(op) > 3 else None
-            if name == 'disconnect':
-                n = arg if isinstance(arg, int) else 1
-                # n concurrent calls issued in the same loop iteration = n calls one after the other
-                out.append(f'at {i} disconnect' + f'\nat {i} disconnect' * (n - 1))
-            elif name in ('closeDone', 'connectFail'):
-                out.append(f'at {i} {name}')
-            elif name in ('frame', 'sendTimeout'):
-                out.append(f'at {i} {name} {int(bool(arg))}')
-            elif arg is not None:
-                out.append(f'at {i} {name} {arg}')
+            if name == 'burst':
+                # calls made in one loop iteration: the tasks they create take their first step in that order, and each
+                # runs up to its first real suspension = the calls one after the other
+                out.append('\n'.join(_op_line(i, sub[0], sub[1] if len(sub) > 1 else None) for sub in arg))
             else:
-                out.append(f'at {i} {name}')
+                out.append(_op_line(i, name, arg))
     return out
+
+
+REASONS = ('UNKNOWN', 'CONNECT_FAILED', 'REQUESTED', 'READ_ERROR', 'WRITE_ERROR', 'TIMEOUT', 'EOF')
+
+
+def _op_line(i, name, arg) -> str:
+    if name == 'disconnect':
+        if isinstance(arg, str) and arg in REASONS:
+            return f'at {i} disconnect {arg}'
+        n = arg if isinstance(arg, int) else 1
+        # n concurrent calls issued in the same loop iteration = n calls one after the other
+        return f'at {i} disconnect' + f'\nat {i} disconnect' * (n - 1)
+    if name in ('closeDone', 'connectFail'):
+        return f'at {i} {name}'
+    if name in ('frame', 'sendTimeout'):
+        return f'at {i} {name} {int(bool(arg))}'
+    if arg is not None:
+        return f'at {i} {name} {arg}'
+    return f'at {i} {name}'
 
 
 def _merge_lines(group: list[str]) -> str:
@@ -585,9 +839,12 @@ def _monitor(case: dict, impl: dict) -> list[Violation]:
     vs: list[Violation] = []
 
     def add(sig, what, observed=None, required=None):
-        vs.append(Violation(sig, what, {'kind': case.get('kind'), 'server': case.get('server', False),
-                                        'ops': impl['executed']}, observed=observed, required=required))
+        c = {'kind': case.get('kind'), 'server': case.get('server', False), 'ops': impl['executed']}
+        if case.get('cfg'):
+            c['cfg'] = case['cfg']
+        vs.append(Violation(sig, what, c, observed=observed, required=required))
 
+    # one track per connection OBJECT (label): scenario connections and any other object that reported something
     per: dict = {}
     for (opno, i, tok) in impl['full']:
         per.setdefault(str(i), []).append((opno, tok))
@@ -595,10 +852,8 @@ def _monitor(case: dict, impl: dict) -> list[Violation]:
     if impl['facts']:
         origin_of = {i: f['origin'] for i, f in impl['facts'][-1]['conns'].items()}
     for i, evs in per.items():
-        if i.startswith('?') or i in ('S', 'L'):
-            if i.startswith('?'):
-                add('C10-unknown-connection', f'events for a connection object the scenario did not create: {i}', evs[:4])
-            continue
+        if i in ('S', 'L'):
+            continue              # the server connection of scenarios that do not exercise it; the listening sockets
         is_server = origin_of.get(i) == 'server'
         last = None
         closed_seen = 0
@@ -626,9 +881,6 @@ def _monitor(case: dict, impl: dict) -> list[Violation]:
     # registry at every quiescent point
     for n, facts in enumerate(impl['facts']):
         reg = set(facts['reg'])
-        for x in reg:
-            if x not in facts['conns']:
-                add('C10-registry-inexact', f'registry holds an object the scenario does not know: {x}', facts)
         for i, f in facts['conns'].items():
             if f['origin'] == 'server' or f['state'] is None:
                 continue
@@ -824,13 +1076,182 @@ def _grid() -> list[dict]:
     return cases
 
 
+# --------------------------------------------------------------------------------------------
+# families added for the classes "output pending when the connection is closed" and "configuration-dependent
+# connect paths"
+# --------------------------------------------------------------------------------------------
+
+def _queue_grid() -> list[dict]:
+    """Messages queued (`queue_message`, fire-and-forget tasks listed in `_queued_messages`) and not yet out — the
+    task has not taken its first step, or its drain() is held back — when the connection is closed: by local calls
+    with every CloseReason, by EOF / reset / a partial frame / the read timer, by the write error or the send timer of
+    the queued send itself or of another send; two closers in every order, the drain released before / between /
+    after them; the same with the calls made in ONE loop iteration (burst)."""
+    cases = []
+
+    def mk(kind, ops, server=False):
+        cases.append({'kind': kind, 'server': server, 'ops': ops})
+
+    local = [['disconnect', r] for r in REASONS]
+    env_reader = [['eof'], ['reset'], ['partialEof'], ['readTimeout']]
+    own = [['queueTimeout'], ['send', 'fail'], ['queue', 'fail']]
+    second = [['disconnect', 'REQUESTED'], ['disconnect', 'EOF'], ['eof'], ['reset'], ['queueTimeout'], ['disconnect', 2]]
+    setups = [
+        ('direct-P', lambda slow, obf: [['new', 'direct', 0, slow, obf], ['at', 0, 'connectOk', 'ok']], True, False),
+        ('direct-F', lambda slow, obf: [['new', 'direct', 1, slow, obf], ['at', 0, 'connectOk', 'ok']], False, False),
+        ('back-P', lambda slow, obf: [['new', 'back', 0, slow, obf], ['at', 0, 'connectOk', 'ok']], True, False),
+        ('incoming-P', lambda slow, obf: [['new', 'incoming', 0, slow, obf], ['at', 0, 'firstFrame', 'initP']], True, False),
+        ('incoming-awaiting-init', lambda slow, obf: [['new', 'incoming', 0, slow, obf]], True, False),
+        ('server', lambda slow, obf: [['new', 'server', 0, slow, 0], ['at', 0, 'connectOk', 'ok']], True, True),
+    ]
+    pendings = [('q', [['at', 0, 'queue', 'block']]),
+                ('q+s', [['at', 0, 'queue', 'block'], ['at', 0, 'send', 'block']]),
+                ('s+q', [['at', 0, 'send', 'block'], ['at', 0, 'queue', 'block']])]
+
+    def at(o):
+        return ['at', 0] + o
+
+    def closing_tail(slow):
+        return ([['at', 0, 'closeDone', 'release']] if slow else []) + \
+            [['at', 0, 'disconnect'], ['at', 0, 'send', 'ok'], ['at', 0, 'queue', 'ok']]
+
+    for sname, setup, has_reader, server in setups:
+        for slow in (0, 1):
+            obf = slow if sname != 'server' else 0          # alternate plain / obfuscated with the close mode
+            firsts = local + own + (env_reader if has_reader else [['reset']])
+            for pname, pending in pendings:
+                base = f'queue:{sname}{"-slow" if slow else ""}:{pname}'
+                for c1 in firsts:
+                    for c2 in second:
+                        if not has_reader and c2 == ['eof']:
+                            continue
+                        for drain_at in ((0, 1, 2) if c2 in second[:3] else (2,)):
+                            seq = [at(c1), at(c2)]
+                            seq.insert(drain_at, ['at', 0, 'drainOk'])
+                            mk(base + ':' + '+'.join('-'.join(str(x) for x in o) for o in (c1, c2)) + f':drain@{drain_at}',
+                               setup(slow, obf) + pending + seq + closing_tail(slow), server)
+            # the same within one loop iteration: the queued task has not even started when disconnect() is called
+            for m in ('ok', 'block'):
+                for r1 in ('REQUESTED', 'UNKNOWN', 'EOF'):
+                    for r2 in ('REQUESTED', 'TIMEOUT'):
+                        for extra in ([], [['send', 'ok']], [['queue', 'ok']] if m == 'ok' else [['send', 'ok']]):
+                            burst = [['queue', m]] + extra + [['disconnect', r1], ['disconnect', r2]]
+                            for after in ([], [['eof']] if has_reader else [['reset']], [['reset']], [['drainOk']],
+                                          [['disconnect', 'REQUESTED']]):
+                                mk(f'queue:{sname}{"-slow" if slow else ""}:burst:{m}:{r1}+{r2}:'
+                                   + '+'.join(o[0] for o in extra + after),
+                                   setup(slow, obf) + [['at', 0, 'burst', burst]] + [at(o) for o in after]
+                                   + [['at', 0, 'drainOk']] + closing_tail(slow), server)
+    # pending output on a connection that is still being opened / whose init message is parked
+    for origin in ('direct', 'back'):
+        for slow in (0, 1):
+            new = ['new', origin, 0, slow, 0]
+            for r in ('REQUESTED', 'CONNECT_FAILED'):
+                mk(f'queue:{origin}{"-slow" if slow else ""}:while-opening:{r}',
+                   [new, ['at', 0, 'queue', 'ok'], ['at', 0, 'disconnect', r], ['at', 0, 'connectOk', 'ok'],
+                    ['at', 0, 'queue', 'ok']])
+                for then in ([['at', 0, 'drainOk']], [['at', 0, 'reset']], [['at', 0, 'sendTimeout', 1]],
+                             [['at', 0, 'cancelAttempt']], [['at', 0, 'queueTimeout']]):
+                    mk(f'queue:{origin}{"-slow" if slow else ""}:init-drain-parked:{r}:{then[0][2]}',
+                       [new, ['at', 0, 'connectOk', 'block'], ['at', 0, 'queue', 'block'], ['at', 0, 'disconnect', r]]
+                       + then + closing_tail(slow))
+                    mk(f'queue:{origin}{"-slow" if slow else ""}:init-drain-parked:{then[0][2]}:{r}',
+                       [new, ['at', 0, 'connectOk', 'block'], ['at', 0, 'queue', 'block']] + then
+                       + [['at', 0, 'disconnect', r]] + closing_tail(slow))
+    return cases
+
+
+def _queue_core(c: dict) -> bool:
+    k = c['kind']
+    return ((':q:' in k and k.endswith('drain@2')) or (':burst:' in k and k.endswith('+REQUESTED:'))
+            or 'while-opening' in k or 'init-drain-parked' in k)
+
+
+PROBES = [['connectOk', 'ok'], ['frame', 1], ['send', 'ok'], ['queue', 'ok'], ['frame', 1], ['eof'], ['disconnect'],
+          ['connectOk', 'ok'], ['connectFail'], ['closeDone', 'release'], ['send', 'ok']]
+
+
+def _cfg_grid() -> list[dict]:
+    """Connect paths that depend on configuration and on what the peer advertises: `network.peer.obfuscate` on / off x
+    regular port, obfuscated port or both advertised (in the ConnectToPeer message / in the GetPeerAddress answer) x
+    connection type x how the first attempt ends; every scenario ends with probes (a further connect completion, a
+    frame, sends, EOF, disconnect — whatever is enabled then), so that a connection object that comes back to life, or
+    a second object, is driven and observed as well.  Origin `api` = the public `create_peer_connection` in both
+    connect modes (monitor only; C11 holds the model of that request)."""
+    cases = []
+    firsts = [
+        ('refused', [['connectFail']]), ('timeout', [['connectTimeout']]), ('overflow', [['connectFail', 'overflow']]),
+        ('cancelled', [['cancelAttempt']]), ('local-while-opening', [['disconnect'], ['connectOk', 'ok']]),
+        ('ok', [['connectOk', 'ok']]), ('init-fails', [['connectOk', 'fail']]),
+        ('init-parked-reset', [['connectOk', 'block'], ['reset']]),
+        ('init-parked-cancel', [['connectOk', 'block'], ['cancelAttempt']]),
+        ('init-parked-ok', [['connectOk', 'block'], ['drainOk']]),
+    ]
+    for prefer in (0, 1):
+        for origin in ('back', 'direct'):
+            for obf in ((0, 1, 2) if origin == 'back' else (0, 1, 2, 3, 4)):
+                for typF in (0, 1):
+                    for fname, first in firsts:
+                        slow = (prefer + obf + typF + len(fname)) % 2
+                        ops = [['new', origin, typF, slow, obf]] + [['at', 0] + o for o in first + PROBES]
+                        cases.append({'kind': f'cfg:{origin}-{"F" if typF else "P"}:prefer{prefer}:ports{obf}:{fname}',
+                                      'server': False, 'cfg': {'obfuscate': prefer}, 'ops': ops})
+    indirect = [
+        ('pierce', [['new', 'incoming', 0, 0, 0], ['at', 1, 'firstFrame', 'pierceApi']]),
+        ('pierce-obfs-port', [['new', 'incoming', 0, 1, 1], ['at', 1, 'firstFrame', 'pierceApi']]),
+        ('cannot-connect', [['at', 0, 'cannotConnect']]),
+        ('indirect-timeout', [['at', 0, 'indirectTimeout']]),
+        ('cancel', [['at', 0, 'cancelAttempt']]),
+    ]
+    for mode in ('fallback', 'race'):
+        for prefer in (0, 1):
+            for obf in (0, 1, 2, 3, 4):
+                for typF in (0, 1):
+                    cfg = {'obfuscate': prefer, 'mode': mode, 'monitor_only': True}
+                    new = ['new', 'api', typF, (prefer + obf + typF) % 2, obf]
+                    base = f'api:{mode}:{"F" if typF else "P"}:prefer{prefer}:ports{obf}'
+                    probes0 = [['at', 0] + o for o in PROBES]
+                    probes1 = [['at', 1] + o for o in PROBES[1:]]
+                    for fname, first in firsts:
+                        d = [['at', 0] + o for o in first]
+                        for iname, ind in indirect:
+                            cases.append({'kind': f'{base}:{fname}:then-{iname}', 'server': False, 'cfg': cfg,
+                                          'ops': [new] + d + ind + probes0 + probes1})
+                            if mode == 'race' and fname in ('refused', 'ok', 'init-fails', 'timeout'):
+                                cases.append({'kind': f'{base}:{iname}-then:{fname}', 'server': False, 'cfg': cfg,
+                                              'ops': [new] + ind + d + probes0 + probes1})
+    return cases
+
+
 OPS_W = [('connectFail', 'overflow', 1), ('connectOk', 'ok', 8), ('connectOk', 'block', 3), ('connectOk', 'fail', 2), ('connectFail', None, 3),
          ('connectTimeout', None, 2), ('cancelAttempt', None, 4), ('firstFrame', 'initP', 4), ('firstFrame', 'initF', 1),
          ('firstFrame', 'pierceP', 2), ('firstFrame', 'pierceF', 1), ('firstFrame', 'pierceUnknown', 1),
          ('firstFrame', 'undecodable', 1), ('frame', 1, 5), ('frame', 0, 2), ('partialEof', None, 1), ('eof', None, 2),
          ('reset', None, 2), ('readTimeout', None, 2), ('disconnect', None, 4), ('disconnect', 2, 2), ('disconnect', 'frame', 2),
          ('closeDone', 'release', 5), ('closeDone', 'timeout', 2), ('send', 'ok', 5), ('send', 'block', 3),
-         ('send', 'fail', 2), ('drainOk', None, 4), ('sendTimeout', 0, 2), ('sendTimeout', 1, 2)]
+         ('send', 'fail', 2), ('drainOk', None, 4), ('sendTimeout', 0, 2), ('sendTimeout', 1, 2),
+         ('queue', 'ok', 3), ('queue', 'block', 4), ('queue', 'fail', 1), ('queueTimeout', None, 2),
+         ('disconnect', 'REQUESTED', 2), ('disconnect', 'UNKNOWN', 1), ('disconnect', 'EOF', 1), ('disconnect', 'TIMEOUT', 1),
+         ('disconnect', 'READ_ERROR', 1), ('disconnect', 'WRITE_ERROR', 1), ('disconnect', 'CONNECT_FAILED', 1),
+         ('burst', None, 5)]
+
+
+def _gen_burst(rng: random.Random, env: bool) -> list:
+    """calls made in one loop iteration.  Modelled form: sends / queued sends first (one only unless all of them go
+    straight out), then disconnect calls.  `env`: anything in any order, remote events included (monitor only)."""
+    if env:
+        pool = [['queue', 'ok'], ['queue', 'block'], ['send', 'ok'], ['disconnect', 'REQUESTED'], ['disconnect', 'EOF'],
+                ['disconnect', 'REQUESTED'], ['eof'], ['reset'], ['frame', 1], ['partialEof'], ['queue', 'fail']]
+        return [list(rng.choice(pool)) for _ in range(rng.randint(2, 5))]
+    sends: list = []
+    if rng.random() < 0.85:
+        m = rng.choice(['ok', 'ok', 'block', 'fail'])
+        if m == 'ok':
+            sends = [[rng.choice(['queue', 'queue', 'send']), 'ok'] for _ in range(rng.randint(1, 3))]
+        else:
+            sends = [[rng.choice(['queue', 'queue', 'send']), m]]
+    ds = [['disconnect', rng.choice(REASONS + ('REQUESTED',) * 4)] for _ in range(rng.randint(0 if len(sends) > 1 else 1, 3))]
+    return sends + ds
 
 
 def _gen_random(rng: random.Random) -> dict:
@@ -839,11 +1260,24 @@ def _gen_random(rng: random.Random) -> dict:
     made = 0
     n = rng.randint(6, 22)
     pool = [(a, b) for a, b, w in OPS_W for _ in range(w)]
+    cfg = {'obfuscate': int(rng.random() < 0.4)}
+    monitor_only = rng.random() < 0.12
+    if monitor_only:
+        cfg.update(mode=rng.choice(['fallback', 'race']), monitor_only=True)
+        pool += [('cannotConnect', None), ('indirectTimeout', None), ('firstFrame', 'pierceApi')] * 3
     for _ in range(n):
         if made < ncon and (made == 0 or rng.random() < 0.25):
             origin = rng.choice(['direct', 'direct', 'back', 'incoming', 'incoming'])
+            if monitor_only and (made == 0 or rng.random() < 0.4):
+                origin = 'api'
             typF = rng.random() < 0.25 if origin != 'incoming' else 0
-            ops.append(['new', origin, int(typF), int(rng.random() < 0.5), int(rng.random() < 0.3)])
+            if origin == 'incoming':
+                obf = int(rng.random() < 0.3)
+            elif origin == 'back':
+                obf = rng.choice([0, 0, 1, 2, 2])
+            else:
+                obf = rng.choice([0, 0, 0, 1, 2, 2, 3, 4])
+            ops.append(['new', origin, int(typF), int(rng.random() < 0.5), obf])
             made += 1
             continue
         if rng.random() < 0.06:
@@ -855,8 +1289,10 @@ def _gen_random(rng: random.Random) -> dict:
             continue
         name, arg = rng.choice(pool)
         i = rng.randrange(made)
+        if name == 'burst':
+            arg = _gen_burst(rng, monitor_only and rng.random() < 0.6)
         ops.append(['at', i, name] + ([arg] if arg is not None else []))
-    return {'kind': 'random', 'server': False, 'ops': ops}
+    return {'kind': 'random', 'server': False, 'cfg': cfg, 'ops': ops}
 
 
 def _eval_case(case):
@@ -921,7 +1357,14 @@ class C10(Property):
     def _cases(self, seed, tier, widen):
         rng = random.Random(f'C10-{seed}')
         n = (4000 if tier == "quick" else 80000) * widen
-        cases = list(WITNESSES) + _grid() + [_gen_random(rng) for _ in range(n)]
+        # the two added grids are large: the quick tier always runs their core and a quarter / a third of the rest,
+        # rotated by the seed (seeds 0..3 cover all of it); thorough and the widened search run everything
+        full = tier != 'quick' or widen > 1
+        qg = [c for k, c in enumerate(_queue_grid())
+              if full or _queue_core(c) or k % 4 == seed % 4]
+        cg = [c for k, c in enumerate(_cfg_grid())
+              if full or not c['kind'].startswith('api:') or k % 3 == seed % 3]
+        cases = list(WITNESSES) + _grid() + qg + cg + [_gen_random(rng) for _ in range(n)]
         return cases
 
     def correspondence(self, seed, tier, model_ok, widen=1):
@@ -934,7 +1377,10 @@ class C10(Property):
         model = None
         if model_ok:
             lines, spans = [], []
-            for io in impl:
+            for c, io in zip(cases, impl):
+                if (c.get('cfg') or {}).get('monitor_only'):
+                    spans.append(None)        # real code + monitor only (no model of these ops)
+                    continue
                 ls = _model_lines(io['executed'])
                 flat = '\n'.join(ls).split('\n')
                 groups = []
@@ -946,7 +1392,7 @@ class C10(Property):
                 spans.append(groups)
                 lines += flat
             out = common.run_driver(self.driver_file, lines)
-            model = [[_merge_lines(out[a:a + k]) for a, k in groups] for groups in spans]
+            model = [None if groups is None else [_merge_lines(out[a:a + k]) for a, k in groups] for groups in spans]
         else:
             res.model_available = False
         res.disagreements += site_breaks(cases, impl)
@@ -959,7 +1405,9 @@ class C10(Property):
             res.count('ops-skipped(not enabled)', len(io['skipped']))
             for op in io['executed']:
                 res.count('op:' + ('net-disconnect' + ('+new' if len(op) > 3 else '') if op[0] == 'net'
-                                   else op[0] if op[0] == 'new' else op[2]))
+                                   else f'new-{op[1]}-ports{op[4]}' if op[0] == 'new' else op[2]))
+                if op[0] == 'at' and op[2] == 'burst':
+                    res.count('burst:' + '+'.join(sub[0] for sub in op[3]))
             for l in io['lines']:
                 for tok in l.split(' ')[0][3:].split(','):
                     if tok:
@@ -967,13 +1415,16 @@ class C10(Property):
             closed = any('CLOSED' in l.split(' ')[0] for l in io['lines'])
             if closed and len(io['executed']) >= 3:
                 res.nontrivial_keys.add(common.sha(io['executed']))
-            if model is not None:
+            if model is not None and model[i] is None:
+                res.count('monitor-only-cases')
+            elif model is not None:
                 res.traces_validated += 1
                 if model[i] != io['lines']:
                     k = next((j for j, (a, b) in enumerate(zip(model[i], io['lines'])) if a != b),
                              min(len(model[i]), len(io['lines'])))
                     res.disagreements.append(Disagreement(
-                        {'kind': c['kind'], 'server': c.get('server', False), 'ops': io['executed']},
+                        {'kind': c['kind'], 'server': c.get('server', False), 'ops': io['executed'],
+                         **({'cfg': c['cfg']} if c.get('cfg') else {})},
                         io['lines'][k] if k < len(io['lines']) else None,
                         model[i][k] if k < len(model[i]) else None,
                         f'op #{k}: {io["executed"][k] if k < len(io["executed"]) else ""}'))
